@@ -208,6 +208,10 @@ Definition exec (op : N) (args : list ans) (st : dstate) : dstate * ans :=
                     (AList [ANum (s_trie_blocks a - 1); ANum (blen (a_pages a));
                             ANum (count_if (fun x => snd x) (a_pages a));
                             ANum (s_trie_blocks a - 1 - blen (a_known a)); ANum (s_stubs a)]))
+  | 48 => (* Traph.metrics(): the "links" figures and the integer "bst" figures *)
+      let '(mi, li, mo, lo) := links_metrics m in
+      let '(nb, mh, ms, sh, ss) := bst_metrics m in
+      (st, both (AList [ANum mi; ABytes li; ANum mo; ABytes lo; ANum nb; ANum mh; ANum ms; ANum sh; ANum ss]) ANone)
   | 46 =>
       (* page degree figures: [indegree; outdegree; degree; weighted indegree; weighted outdegree; weighted degree] *)
       let figs (pl : bytes -> bool -> bool -> bool -> list (bytes * bytes * N)) :=
